@@ -239,6 +239,50 @@ def after_mutation_case(seq, op):
     return h
 
 
+def copied_object_case(when, op):
+    """copy() called while the source holds (or is using) a write permission; the returned
+    object never had allow_write() called on it: a mutator in a plain context of the copy
+    (or with no context) must raise and leave the copy's file untouched."""
+    def h(I):
+        def P(label, cond, note=""):
+            return I.prove(f"C08.{label}", cond, note)
+        fs = I.fs()
+        tb = I.mod("tdfBlock")
+        Tdf = I.mod("basictdf").Tdf
+        N, live = 3, (16,)
+        model, spec = C.make_prestate(I, fs, "f.tdf", N, live)
+        C.install_recorders(I)
+        src = Tdf(fs.path("f.tdf"))
+        if when == "inside_write_context":
+            with src.allow_write() as s_:
+                dup = s_.copy(fs.path("d.tdf"))
+        elif when == "permission_pending":
+            src.allow_write()
+            dup = src.copy(fs.path("d.tdf"))
+        else:
+            dup = src.copy(fs.path("d.tdf"))
+        pre = fs.obs("d.tdf")
+        blk, _ = C.opaque_block(I, 11, "m", budget=[spec["total"]])
+        try:
+            if op == "plain_context_remove":
+                with dup as d_:
+                    d_.remove_block(tb.BlockType(16))
+            elif op == "plain_context_add":
+                with dup as d_:
+                    d_.add_block(blk)
+            else:
+                dup.add_block(blk)
+            exc = None
+        except Exception as e:  # noqa: BLE001
+            exc = e
+        I.observe("exc", type(exc).__name__ if exc else None)
+        I.goal("forbidden")
+        P("mutation_outside_write_context_raises", exc is not None, f"{op} on a copy taken {when}")
+        unchanged(I, P, fs, pre, model, None, None, N, "u", ".by_forbidden_mutation", name="d.tdf")
+        P("all_handles_closed_after_exit", fs.open_handles() == 0)
+    return h
+
+
 def equal_block_case(seq, via):
     """The file holds a REAL events block; the forbidden request assigns a block of equal
     content (no decoder recorders: block equality is the library's own)."""
@@ -290,6 +334,9 @@ def instances(tier):
         for via in ("replace", "replace_nocomment", "setter"):
             inside, writable = expected_mode(seq)
             out.append(Instance(f"equal_block.{''.join(seq) or 'fresh'}.{via}", equal_block_case(seq, via), goals=["allowed" if writable else "forbidden"], cost=20))
+    for when in ("inside_write_context", "permission_pending", "no_permission"):
+        for op in ("plain_context_remove", "plain_context_add", "no_context_add"):
+            out.append(Instance(f"copied_object.{when}.{op}", copied_object_case(when, op), goals=["forbidden"], cost=10))
     for seq in [(), ("A",), ("E",), ("A", "E"), ("A", "E", "X"), ("A", "G"), ("E", "X", "A")]:
         for op in (["has_events", "blocks"] if q else ["has_events", "blocks", "len", "get_block", "nBytes"]):
             out.append(Instance(f"after_mutation.{''.join(seq) or 'fresh'}.{op}", after_mutation_case(seq, op), goals=["reader"], cost=10))
